@@ -89,11 +89,18 @@ theorem iter_complete (cfg : Cfg) (fs : FS) (n : Nat) (roots l : List Comps) (c 
     (hc : memberSpec cfg fs roots c) : c ∈ l :=
   iter_complete' cfg fs n roots l c hwf hfuel h (fun hcr => hnf c hcr hc.1) hc
 
-/-- … exactly once, and no path is enumerated twice, when no code-base directory lies inside another -/
+/-- … exactly once: no path is enumerated twice, for ANY list of code-base directories — a directory listed
+twice (e.g. once through a symbolic link: the directories are resolved) or listed together with one of its
+parents is walked once (repair of F-C09-NEST; before it this needed "no directory lies inside another") -/
 theorem iter_nodup (cfg : Cfg) (fs : FS) (n : Nat) (roots l : List Comps)
-    (hwf : wf fs = true) (hroots : roots.Pairwise (fun a b => ¬ a <+: b ∧ ¬ b <+: a))
+    (hwf : wf fs = true) (h : iter cfg fs n roots = .ok l) : l.Nodup :=
+  iter_nodup' cfg fs n roots l hwf h
+
+/-- the former statement (directories without overlap), now a special case -/
+theorem iter_nodup_disjoint (cfg : Cfg) (fs : FS) (n : Nat) (roots l : List Comps)
+    (hwf : wf fs = true) (_hroots : roots.Pairwise (fun a b => ¬ a <+: b ∧ ¬ b <+: a))
     (h : iter cfg fs n roots = .ok l) : l.Nodup :=
-  iter_nodup' cfg fs n roots l hwf hroots h
+  iter_nodup cfg fs n roots l hwf h
 
 /-- an enumerated path is the canonical path of a member, or a symbolic link that resolves to a member
 (or, in the recorded class, a link whose text `escapes`) -/
@@ -104,10 +111,11 @@ theorem iter_noncanonical (cfg : Cfg) (fs : FS) (n : Nat) (roots l : List Comps)
     (∃ t, lstat fs x = some (.link t) ∧ escapes fs n [] ⟨true, x⟩) :=
   iter_cases cfg fs n roots l x hwf hfuel h hx
 
-/-- `C09.iter_exact`: the three parts together (hypothesis `hnf` ADDED for the second part, as in `iter_complete`) -/
+/-- `C09.iter_exact`: the three parts together, for ANY list of code-base directories — equal, nested, in any
+order (hypothesis `hnf` ADDED for the second part, as in `iter_complete`; the hypothesis "no directory lies
+inside another" of the statement before the repair of F-C09-NEST is gone) -/
 theorem iter_exact (cfg : Cfg) (fs : FS) (n : Nat) (roots l : List Comps)
     (hwf : wf fs = true) (hfuel : bigFuel fs n)
-    (hroots : roots.Pairwise (fun a b => ¬ a <+: b ∧ ¬ b <+: a))
     (hnf : ∀ r ∈ roots, lstat fs r ≠ some .file)
     (h : iter cfg fs n roots = .ok l) :
     (∀ x ∈ l, contains cfg fs n roots [] ⟨true, x⟩ = .ok true) ∧
@@ -117,7 +125,7 @@ theorem iter_exact (cfg : Cfg) (fs : FS) (n : Nat) (roots l : List Comps)
           ((∃ c, namei fs n [] x = .ok c ∧ memberSpec cfg fs roots c) ∨ escapes fs n [] ⟨true, x⟩)) := by
   refine ⟨fun x hx => iter_members cfg fs n roots l x h hx, ?_, ?_⟩
   · intro c hc
-    exact List.count_eq_one_of_mem (iter_nodup cfg fs n roots l hwf hroots h)
+    exact List.count_eq_one_of_mem (iter_nodup cfg fs n roots l hwf h)
       (iter_complete cfg fs n roots l c hwf hfuel h hnf hc)
   · intro x hx hne
     rcases iter_noncanonical cfg fs n roots l x hwf hfuel h hx with ⟨hf, _⟩ | ⟨t, c, hl, hn, hm⟩ | ⟨t, hl, he⟩
@@ -130,7 +138,20 @@ theorem iter_exact (cfg : Cfg) (fs : FS) (n : Nat) (roots l : List Comps)
     · exact ⟨t, hl, Or.inl ⟨c, hn, hm⟩⟩
     · exact ⟨t, hl, Or.inr he⟩
 
-/-- the enumeration raises exactly when some entry below a root runs into a link loop (D18) -/
+/-- the former statement of `iter_exact` (directories without overlap), now a special case -/
+theorem iter_exact_disjoint (cfg : Cfg) (fs : FS) (n : Nat) (roots l : List Comps)
+    (hwf : wf fs = true) (hfuel : bigFuel fs n)
+    (_hroots : roots.Pairwise (fun a b => ¬ a <+: b ∧ ¬ b <+: a))
+    (hnf : ∀ r ∈ roots, lstat fs r ≠ some .file)
+    (h : iter cfg fs n roots = .ok l) :
+    (∀ x ∈ l, contains cfg fs n roots [] ⟨true, x⟩ = .ok true) ∧
+    (∀ c, memberSpec cfg fs roots c → l.count c = 1) ∧
+    (∀ x ∈ l, namei fs n [] x ≠ .ok x →
+        ∃ t, lstat fs x = some (.link t) ∧
+          ((∃ c, namei fs n [] x = .ok c ∧ memberSpec cfg fs roots c) ∨ escapes fs n [] ⟨true, x⟩)) :=
+  iter_exact cfg fs n roots l hwf hfuel hnf h
+
+/-- the enumeration raises exactly when some entry below a walked directory runs into a link loop (D18) -/
 theorem iter_error_iff (cfg : Cfg) (fs : FS) (n : Nat) (roots : List Comps) :
     (∃ e, iter cfg fs n roots = .error e) ↔
       cfg.catchLoop = false ∧ ∃ x ∈ candidates fs roots, realpath fs n [] x = .loop := by
@@ -208,9 +229,14 @@ example : dirPath exFS ["t", "sub"] = true ∧
     namei exFS 20 (start [] ⟨true, ["t", "a.c"]⟩) ["t", "a.c"] = .ok ["t", "a.c"] := by decide
 
 example : wf exFS = true := by decide
-/-- hypotheses of `iter_exact` / `C15.counted_once` hold for two disjoint directory roots -/
+/-- hypotheses of `iter_exact_disjoint` hold for two disjoint directory roots -/
 example : ([["t", "sub"], ["out"]] : List Comps).Pairwise (fun a b => ¬ a <+: b ∧ ¬ b <+: a) := by decide
 example : ∀ r ∈ ([["t", "sub"], ["out"]] : List Comps), lstat exFS r ≠ some .file := by decide
+/-- hypotheses of `iter_exact` / `C15.counted_once` hold for overlapping directories: an inner directory listed
+before its parent, the parent listed twice, an unrelated directory — every member once -/
+example : ∀ r ∈ ([["t", "sub"], ["t"], ["out"], ["t"]] : List Comps), lstat exFS r ≠ some .file := by decide
+example : iter { exCfg with ignored := fun _ => false } exFS 20 [["t", "sub"], ["t"], ["out"], ["t"]]
+    = .ok [["t", "a.c"], ["t", "sub", "b.h"], ["t", "la.c"], ["t", "lo.c"], ["t", "sub", "x.c"], ["out", "o.c"]] := by rfl
 example : iter exCfg exFS 20 [["t", "sub"], ["out"]] = .ok [["t", "sub", "b.h"], ["t", "sub", "x.c"], ["out", "o.c"]] := by rfl
 example : bigFuel exFS 20 := by unfold bigFuel; decide
 example : isTrue (contains exCfg exFS 20 [["t"]] ["t", "sub"] ⟨false, ["..", "dl", "..", "la.c"]⟩) = true := by decide
@@ -230,10 +256,14 @@ theorem loop_witness :
       = .ok [["t", "a.c"], ["t", "sub", "b.h"], ["t", "la.c"]] := by
   exact ⟨rfl, rfl⟩
 
-/-- F-C09-NEST is inhabited: with one code-base directory inside another a member is enumerated twice -/
+/-- F-C09-NEST (repaired): with one code-base directory inside another the enumeration that walked every listed
+directory (`iterUnrepaired`, the code before the repair) produced a member twice; `iter` produces it once -/
 theorem nested_roots_witness :
-    iter exCfg exFS 20 [["t"], ["t", "sub"]] = .ok [["t", "a.c"], ["t", "sub", "b.h"], ["t", "la.c"], ["t", "sub", "b.h"]] := by
-  rfl
+    iterUnrepaired exCfg exFS 20 [["t"], ["t", "sub"]]
+      = .ok [["t", "a.c"], ["t", "sub", "b.h"], ["t", "la.c"], ["t", "sub", "b.h"]] ∧
+    iter exCfg exFS 20 [["t"], ["t", "sub"]] = .ok [["t", "a.c"], ["t", "sub", "b.h"], ["t", "la.c"]] ∧
+    iter exCfg exFS 20 [["t", "sub"], ["t"], ["t"]] = .ok [["t", "a.c"], ["t", "sub", "b.h"], ["t", "la.c"], ["t", "sub", "x.c"]] := by
+  exact ⟨rfl, rfl, rfl⟩
 
 /-- why `iter_complete`, `iter_exact` (and `C15.counted_once`) assume that no code-base "directory" is a
 regular file: such a root is a member of itself (`is_relative_to` holds for the path itself) although
